@@ -354,6 +354,7 @@ func c10GenDoc(rng *Rng, o c10GenOpts) c10Doc {
 		}
 		k.Queue = PickOne(rng, []string{"", "", "q1", "slow"})
 		k.Group = PickOne(rng, groups)
+		k.ExplicitEmpty = rng.Chance(12)
 		d.Kubes = append(d.Kubes, k)
 	}
 	// a pair of bindings with one name: legal as long as nobody refers to the name and they have no group
@@ -458,6 +459,13 @@ func c10GenDoc(rng *Rng, o c10GenOpts) c10Doc {
 	}
 	if rng.Chance(30) {
 		d.Settings = &c10Settings{Interval: PickOne(rng, []string{"3s", "100ms", "1m30s", "0"}), Burst: rng.Range(0, 9)}
+		if !o.needKube && !o.needSched && rng.Chance(12) {
+			if rng.Bool() {
+				d.Settings.NoInterval = true
+			} else {
+				d.Settings.NoBurst = true
+			}
+		}
 	}
 	if rng.Chance(30) {
 		d.OnStartup = c10Iptr(rng.Range(-3, 40))
@@ -809,7 +817,7 @@ func runC10(r *Run) {
 		c.Desc = "corpus: every default at once, [] events, priorities, group union with declared includes"
 		c.Nontrivial = true
 		ee, we := []string{}, []string{"Added"}
-		d := c10Doc{Settings: &c10Settings{"3s", 5}, OnStartup: c10Iptr(7),
+		d := c10Doc{Settings: &c10Settings{Interval: "3s", Burst: 5}, OnStartup: c10Iptr(7),
 			Kubes: []c10Kube{{Kind: "Pod", Name: "a", Group: "g", ExecEvents: &ee, WatchEvents: &we, Keep: c10Bptr(false)},
 				{Kind: "Pod", Name: "b", Group: "g", Queue: "q", Wait: c10Bptr(false)}, {Kind: "Pod", Wait: c10Bptr(false), Includes: []string{"a"}}},
 			Scheds:     []c10Sched{{Crontab: "* * * * *", Group: "g", Includes: []string{"kubernetes", "a"}}, {Crontab: "1 * * * *", Name: "s"}},
@@ -854,6 +862,12 @@ func runC10(r *Run) {
 		}
 		c.Nontrivial = v == "ok" && kinds >= 2 && grouped
 		c.Desc = "valid document"
+		if d.Settings != nil && (d.Settings.NoInterval || d.Settings.NoBurst) {
+			// settings with one key only: the loader rejects it (the absent key is parsed as ""); the
+			// property neither demands nor forbids that — only the model is compared
+			c.Note("doc:settings-one-key")
+			return
+		}
 		if v != "ok" {
 			// a generated document is valid by construction: a rejection is reported
 			c.Oracle("reject fault=none-expected-valid verdict=ok-expected-but-" + v)
